@@ -74,6 +74,20 @@ Fixpoint exec_commits (s : store) (ws : list write) (k : nat) : store :=
   end.
 Definition commit_crash_state (f : list N) (s : store) (h : src) (k : nat) : store :=
   exec_commits s (snd (plan f s h)) k.
+(* ONE commit fails and the process goes on ("cfault"): the store is the one after the first k commits (as above);
+   what Add reports depends on which write's transaction it was *)
+Fixpoint nth_commit (ws : list write) (k : nat) : option write :=
+  match ws with
+  | [] => None
+  | w :: ws' => if costs_commit w then match k with Datatypes.O => Some w | Datatypes.S k' => nth_commit ws' k' end
+                else nth_commit ws' k
+  end.
+Definition commit_fault_kind (f : list N) (s : store) (h : src) (k : nat) : fault_outcome :=
+  match nth_commit (snd (plan f s h)) k with
+  | Some (WUpdate _ _) => FChainUpdateFail
+  | Some (WInsert _) => FHeaderSaveFail
+  | None => FNoWrite
+  end.
 
 (* ---- a storage error on one STATEMENT kind (injected below the repository by a SQLite trigger that aborts it):
    kind 0 = the demoting UPDATE (SET header_state='STALE'), 1 = the promoting UPDATE ('LONGEST_CHAIN'), 2 = the INSERT.
